@@ -5,7 +5,9 @@ use std::collections::{BTreeMap, BTreeSet, HashSet};
 use std::hash::{Hash, Hasher};
 use std::time::Instant;
 
-pub const VERIF_DIR: &str = "/verif";
+pub fn verif_dir() -> String {
+    std::env::var("VERIF_ROOT").unwrap_or_else(|_| "/verif".to_string())
+}
 
 #[derive(Clone, Debug)]
 pub struct Violation {
@@ -139,7 +141,7 @@ pub struct KnownFinding {
 }
 
 pub fn load_known() -> Vec<KnownFinding> {
-    let path = format!("{VERIF_DIR}/known_findings.json");
+    let path = format!("{}/known_findings.json", verif_dir());
     let Ok(text) = std::fs::read_to_string(&path) else {
         return Vec::new();
     };
@@ -172,7 +174,7 @@ pub fn finish(ctx: &Ctx, info: LevelInfo, mut rep: Report) -> i32 {
     let mut unlisted = 0;
     let mut known_hit = Vec::new();
     let mut viol_lines = Vec::new();
-    std::fs::create_dir_all(format!("{VERIF_DIR}/replays")).ok();
+    std::fs::create_dir_all(format!("{}/replays", verif_dir())).ok();
     for (sig, vs) in &by_sig {
         let k = known
             .iter()
@@ -189,7 +191,8 @@ pub fn finish(ctx: &Ctx, info: LevelInfo, mut rep: Report) -> i32 {
         } else {
             unlisted += 1;
             let fname = format!(
-                "{VERIF_DIR}/replays/{}-{}-{:016x}.json",
+                "{}/replays/{}-{}-{:016x}.json",
+                verif_dir(),
                 ctx.id,
                 ctx.tier,
                 hash_of(sig)
@@ -244,8 +247,8 @@ pub fn finish(ctx: &Ctx, info: LevelInfo, mut rep: Report) -> i32 {
         "wall_s": wall,
         "violations": unlisted,
     });
-    std::fs::create_dir_all(format!("{VERIF_DIR}/evidence")).ok();
-    let path = format!("{VERIF_DIR}/evidence/{}.json", ctx.id);
+    std::fs::create_dir_all(format!("{}/evidence", verif_dir())).ok();
+    let path = format!("{}/evidence/{}.json", verif_dir(), ctx.id);
     std::fs::write(&path, serde_json::to_string_pretty(&ev).unwrap()).expect("write evidence");
     println!(
         "{} {}: evaluations={} distinct={} states={} transitions={} outcomes={} known={} violations={} wall={:.1}s",
